@@ -154,6 +154,11 @@ func parseJSONLineStringCoords(
 			return nil, nil, errCoordinatesInvalid
 		}
 	}
+	if !rcoords.IsArray() {
+		// coordinates handed in by a Multi* parent: an object in place of the
+		// array would otherwise be walked value by value and accepted
+		return nil, nil, errCoordinatesInvalid
+	}
 	rcoords.ForEach(func(key, value gjson.Result) bool {
 		if !value.IsArray() {
 			err = errCoordinatesInvalid
